@@ -22,19 +22,28 @@ def _cell(col, v):
 
 
 def _make(case, ctx):
+    """URI of the cooler of the case: at the file root or in the group case["at"] (a decoy with other content and another
+    extra bin column at the root)."""
     import h5py
+    import cooler
     path = ctx.path()
     table = case["table"]
-    import cooler
+    at = case.get("at")
+    uri = path
+    if at:
+        cooler.create_cooler(path, gen.bins_frame(table, extra={"w": [v + 1 for v in case["w"]]}),
+                             gen.pixels_frame(gen.decoy_px(case["px"])), ordered=True, symmetric_upper=case["mode"] == "symm")
+        uri = path + "::" + at
     bins = gen.bins_frame(table, extra={"w": case["w"]})
-    cooler.create_cooler(path, bins, gen.pixels_frame(case["px"]), ordered=True, symmetric_upper=case["mode"] == "symm")
+    cooler.create_cooler(uri, bins, gen.pixels_frame(case["px"]), ordered=True, symmetric_upper=case["mode"] == "symm", mode="a")
     if case.get("encoding") == "int":
         with h5py.File(path, "r+") as f:
-            ids = f["bins/chrom"][:].astype("int32")
-            del f["bins/chrom"]
-            ds = f["bins"].create_dataset("chrom", data=ids, dtype="int32")
+            g = f[at] if at else f
+            ids = g["bins/chrom"][:].astype("int32")
+            del g["bins/chrom"]
+            ds = g["bins"].create_dataset("chrom", data=ids, dtype="int32")
             ds.attrs["enum_path"] = "/chroms/name"
-    return path
+    return uri
 
 
 @driver("sel.table")
